@@ -623,6 +623,7 @@ func scribbleOwn(v reflect.Value, depth int) {
 }
 
 func (st *srvState) oracle(v *vio) {
+	p := st.p
 	if st.startErr != nil {
 		v.add("harness", "server construction failed: %v", st.startErr)
 		return
@@ -664,6 +665,10 @@ func (st *srvState) oracle(v *vio) {
 		}
 		if inv.done && inv.peerAtEnd != "" && inv.peerAtEnd != inv.peer {
 			v.add("V-peer-mutated", "handler invocation %d: its peer address was %s when it started and %s when it finished (later datagrams were read meanwhile)", i, inv.peer, inv.peerAtEnd)
+		}
+		if inv.done && !bytes.Equal(p.MsgBytes(inv.ptr), inv.atEnd) {
+			// a handler may keep its message (a lease table, a reply sent later): it stays what it was
+			v.add("V-mutated-after-return", "handler invocation %d: the message it was given changed after the handler had returned (it re-encodes to %d bytes now, %d when the handler finished)", i, len(p.MsgBytes(inv.ptr)), len(inv.atEnd))
 		}
 		if inv.done && !inv.wroteOwn && !bytes.Equal(inv.atStart, inv.atEnd) {
 			v.add("V-mutated", "handler invocation %d: the message changed while the handler ran (later datagrams were read meanwhile): %d bytes at start, %d at end", i, len(inv.atStart), len(inv.atEnd))
